@@ -3,7 +3,9 @@
 package cl
 
 import (
+	"math"
 	"math/big"
+	"math/cmplx"
 
 	"github.com/ohler55/slip"
 )
@@ -65,6 +67,11 @@ func (f *Same) Call(s *slip.Scope, args slip.List, depth int) slip.Object {
 }
 
 func same(x, y slip.Object) slip.Object {
+	if isNaN(x) || isNaN(y) {
+		// A NaN is not the same as any number. It can not be made a
+		// long-float either so it must not reach the normalization.
+		return nil
+	}
 	x, y = normalizeForCompare(x, y)
 	switch tx := x.(type) {
 	case slip.Fixnum:
@@ -97,4 +104,18 @@ func same(x, y slip.Object) slip.Object {
 		}
 	}
 	return y
+}
+
+// isNaN returns true if v is a float that is not a number or a complex with
+// such a part.
+func isNaN(v slip.Object) bool {
+	switch tv := v.(type) {
+	case slip.SingleFloat:
+		return math.IsNaN(float64(tv))
+	case slip.DoubleFloat:
+		return math.IsNaN(float64(tv))
+	case slip.Complex:
+		return cmplx.IsNaN(complex128(tv))
+	}
+	return false
 }
